@@ -238,8 +238,9 @@ def _run(ctx):
     ctx.tlc = _Uncapped(ctx)
     listed = [DEFECT] if DEFECT in ctx.open_keys else []
     quick = ctx.quick
-    ctx.constants = {"MC_Lifecycle": {"documents": len(DOCS), "MaxCalls": "2 (all call variants)" if quick else
-                                      "2 (all call variants) and 3 (last call non-strict, source never fails)",
+    ctx.constants = {"MC_Lifecycle": {"documents": len(DOCS), "MaxCalls": "2 (all documents, all call variants)" if quick else
+                                      "2 (all documents, all call variants) and 3 (documents 1-6,10,11,15; last call non-strict, "
+                                      "source never fails)",
                                       "call variants": "document x strict on/off x source failure at read 0..n"},
                      "KnownDefects(code-faithful)": listed}
     ctx.rule = ("MC: every history of calls on one parser object in the bounds, replayed on one real HTMLParser per tree "
@@ -259,18 +260,19 @@ def _run(ctx):
         if not spec_docs:
             raise tlc.TLCError("MC_Lifecycle did not export its document table")
         return
-    runs = [(2, False)] if quick else [(2, False), (3, True)]
     docs = list(range(1, len(DOCS) + 1))
+    docs3 = [1, 2, 3, 4, 5, 6, 10, 11, 15]          # the documents that leave or reveal a persistent field
+    runs = [(2, False, docs)] if quick else [(2, False, docs), (3, True, docs3)]
     # 1. intended design: the theorems hold
-    for mcalls, probe in runs:
-        r = ctx.tlc("MC_Lifecycle", mc_cfg(mcalls, docs, probe, False, [], ALL_THMS), "mc-intended-%d" % mcalls)
+    for mcalls, probe, dd in runs:
+        r = ctx.tlc("MC_Lifecycle", mc_cfg(mcalls, dd, probe, False, [], ALL_THMS), "mc-intended-%d" % mcalls)
         if r.violated:
             ctx.violation("theorem %s fails on the intended specification" % r.violated, {"tlc": r.stdout_path})
             return
     # 2. code-faithful machine: exported, replayed on real objects
     shown = 0
-    for mcalls, probe in runs:
-        r = ctx.tlc("MC_Lifecycle", mc_cfg(mcalls, docs, probe, True, listed, ("ThmInside", "ThmStrict", "ThmExport")),
+    for mcalls, probe, dd in runs:
+        r = ctx.tlc("MC_Lifecycle", mc_cfg(mcalls, dd, probe, True, listed, ("ThmInside", "ThmStrict", "ThmExport")),
                     "mc-faithful-%d" % mcalls, keep_records=False)
         if r.violated:
             ctx.violation("theorem %s fails on the code-faithful specification" % r.violated, {"tlc": r.stdout_path})
@@ -295,8 +297,9 @@ def _run(ctx):
                     shown += 1
     ctx.exhaustive = True
     if listed:
-        r2 = ctx.tlc("MC_Lifecycle", mc_cfg(2, docs, False, False, listed, ("ThmHistoryIndependent",)),
-                     "mc-finding-witness", expect_ok=False)
+        # deterministic state count: one worker, the two documents of the witness
+        r2 = ctx.tlc("MC_Lifecycle", mc_cfg(2, [1, 2], False, False, listed, ("ThmHistoryIndependent",)),
+                     "mc-finding-witness", expect_ok=False, workers=1)
         ctx.notes["finding_witness_at_model_level"] = (r2.violated == "ThmHistoryIndependent")
     # 3. code -> spec, vocabulary histories
     traces, meta = [], []
@@ -500,18 +503,19 @@ def run_schedules(ctx):
             ctx.violation("theorem %s fails on Schedule" % r.violated, {"tlc": r.stdout_path})
             return
         recs = [x for x in tlc.iter_records(r.stdout_path) if isinstance(x, dict) and "sched" in x]
-        if not ctx.quick:
-            pass
-        elif len(recs) > 1500:          # quick: a seeded sample of the schedules, thorough: all
+        recs.sort(key=lambda x: json.dumps(x, sort_keys=True))      # TLC's output order depends on its worker threads
+        if ctx.quick and len(recs) > 1500:          # quick: a seeded sample of the schedules, thorough: all
             recs = ctx.rng.sample(recs, 1500)
         for k, rec in enumerate(recs):
             tb = TBS[k % 2]
             calls = []
             for c in rec["calls"]:
                 calls.append(doc_call(c["doc"], c["fail"], c["strict"]))
-            res, baton = lc.run_scheduled(rec["sched"], calls, tb)
+            # every other pair of plain calls goes through html5lib.parse()/parseFragment() instead of explicit objects
+            api = (k // 2) % 2 == 1 and not any(c["strict"] or "bytes" in c for c in calls)
+            res, baton = lc.run_scheduled(rec["sched"], calls, tb, api=api)
             ctx.traces += 1
-            case = {"kind": "schedule", "treebuilder": tb, "schedule": rec["sched"], "calls": calls}
+            case = {"kind": "schedule", "treebuilder": tb, "schedule": rec["sched"], "calls": calls, "api": api}
             if baton.mismatch or baton.order != rec["sched"]:
                 ctx.violation("the schedule could not be enforced: the real parsers make other read() calls than Schedule.tla "
                               "(%s)" % (baton.mismatch or "order %s" % baton.order), case)
@@ -525,12 +529,14 @@ def run_schedules(ctx):
                     ar = lc.run_call(lc.new_parser(tb), tb, calls[i - 1])
                     alone[key] = (ar[0], lc.exact(ar[1], tb), ar[2])
                 exp = rec["res"][i - 1]
-                got = {"out": out, "items": lc.flat(tree, tb) if out == "ok" else [], "errors": [e[0] for e in errs]}
+                got = {"out": out, "items": lc.flat(tree, tb) if out == "ok" else [],
+                       "errors": [e[0] for e in errs] if errs is not None else exp["errors"]}
                 want = {"out": exp["out"], "items": view_items(exp["items"], tb, calls[i - 1]["frag"]), "errors": exp["errors"]}
                 if got != want:
-                    ctx.violation("parser %d under an enforced interleaving differs from Schedule.tla" % i,
+                    ctx.violation("%s %d under an enforced interleaving differs from Schedule.tla"
+                                  % ("html5lib.parse()/parseFragment() call" if api else "parser", i),
                                   dict(case, parser=i, expected=want, got=got))
-                elif (out, lc.exact(tree, tb), errs) != alone[key]:
+                elif (out, lc.exact(tree, tb), errs if errs is not None else alone[key][2]) != alone[key]:
                     ctx.violation("parser %d under an enforced interleaving differs from the same call made alone" % i,
                                   dict(case, parser=i))
         if recs:
@@ -864,9 +870,11 @@ def replay(case):
                if not r[1]["v"].startswith("finding:") and r[1]["v"] != "outside"]
         bad = rej[0][1]["v"] if rej else None
     elif kind == "schedule":
-        res, baton = lc.run_scheduled(c["schedule"], c["calls"], c["treebuilder"])
+        res, baton = lc.run_scheduled(c["schedule"], c["calls"], c["treebuilder"], api=c.get("api", False))
         for i in (1, 2):
             ar = lc.run_call(lc.new_parser(c["treebuilder"]), c["treebuilder"], c["calls"][i - 1])
+            if c.get("api"):
+                ar = (ar[0], ar[1], None)
             if not same(res[i], ar, c["treebuilder"]):
                 bad = "parser %d under the interleaving differs from the same call made alone" % i
         if baton.mismatch or baton.order != c["schedule"]:
